@@ -197,13 +197,17 @@ def signature_numbers(ck, case):
     return acc
 
 
-def decision_rule(ck, rule, case, out):
+def decision_rule(ck, rule, case, out, vec=None):
     """Structural necessary condition of "flagged iff the value is beyond the limit" at the limit itself, in floating point: a comparison in
     which observations take part has the *parameter as given* (or 0, or a truth value) on its other side - not a number computed from the
     parameters (a centre and half-width, a threshold multiplied by the elapsed time ...): such a number is rounded, so a value exactly on the
     limit can fall on the wrong side, although the two spellings agree over the reals (and therefore in this analyser's exact arithmetic)."""
     evs = [e for e in getattr(out, 'events', []) if e['kind'] == 'data-compare']
     if not evs:
+        # flags that depend on the observations were decided by some comparison: if none was recorded, the comparisons went through a
+        # library function whose model does not report them, and this rule would pass vacuously - refuse instead
+        if vec is not None and any(X.data_atoms(e.d) for e in vec.els() if isinstance(e.d, tuple)):
+            return 'vacuous'
         return
     allowed = numbers_in(case.kwargs, set()) | numbers_in(list(case.args), set()) | signature_numbers(ck, case)
     allowed |= {-v for v in allowed} | {Fr(0)}
@@ -272,8 +276,9 @@ def table_rule(ck, rule, case, spec, scope='present'):
         ck.violate(rule + '.shape', f'{fn_key(case)}:length', f'{case.test} returns {len(vec)} flags for {case.n} inputs',
                    dict(case=case.label))
         return None
+    vacuous = False
     if scope != 'missing':
-        decision_rule(ck, rule, case, out)
+        vacuous = decision_rule(ck, rule, case, out, vec) == 'vacuous'
 
     def pos(p):
         missing = spec.is_missing(p) if hasattr(spec, 'is_missing') else case.pat.get('inp', 'p' * case.n)[p] == 'm'
@@ -295,6 +300,10 @@ def table_rule(ck, rule, case, spec, scope='present'):
                    f"{[FLAGNAME.get(int(g), g) if str(g).isdigit() else g for g in m['got']]}, the property allows "
                    f"{[FLAGNAME.get(int(g), g) for g in m['allowed']]}" + (f"; witness {m['witness']}" if m.get('witness') else ''), m)
     if not res.mismatches:
+        if vacuous:
+            # the table agrees over the reals, but the decision rule (its floating-point complement) had nothing to look at
+            ck.defer(f'{case.label}: the flags depend on the observations but no comparison of observations was recorded '
+                     f'(decision rule cannot be applied)')
         ck.hold(rule + '.table', case.label)
     return out
 
